@@ -1,6 +1,6 @@
 (* Extract.v — extraction of the executable model to OCaml (ExtrOcamlBasic only: bool, option, unit, list,
    prod, sumbool, sumor mapped to OCaml's; N, Z, positive, nat stay the extracted inductive types). *)
-Require Import Base Cbor EncoderModel Timestamp DecoderModel Schema Block Exporter Writer.
+Require Import Base Cbor EncoderModel Timestamp DecoderModel Schema Block Exporter Writer Merge.
 Require Extraction.
 Require Import ExtrOcamlBasic.
 Extraction Blacklist String List Nat Int.
@@ -17,4 +17,5 @@ Extraction "model.ml"
   val_eqb tadd add_qr add_aec add_mm blk_val blk_new item_count x_new write_block write_block_ext buffer_qr buffer_aec buffer_mm rotate destroy
   add_block_parameters set_active reader_open reader_next read_file gen_qr gen_aec gen_mm
   add_to blk_clear blk_of_rb tbs_of_tables bp_of_val xstep xrun
-  named_trace fd_trace czip outputs_of fd_calls named_calls fout_new enc_rotate_fd lost.
+  named_trace fd_trace czip outputs_of fd_calls named_calls fout_new enc_rotate_fd lost
+  merge_bytes merge_run itemcount_blocks itemcount_total.
